@@ -2,7 +2,7 @@ SPECIFICATION Spec
 CONSTANTS
   Keys = {"a","b","c"}
   NVals = 3
-  InputClass = "distinct"
+  InputClasses = {"distinct", "single"}
 INVARIANT Exposes
 INVARIANT Faithful
 CHECK_DEADLOCK FALSE
